@@ -12,21 +12,50 @@ def run_plan(case):
     tables = L.tables()
     rc = random.Random(case["seed"]) if case.get("random_classes") else None
     plan = plans.make_plan(case.get("k", 0), case["seed"], tables, random_classes=rc) if case.get("k") is not None else None
+    blank = case.get("blank")
+    if case.get("blank_text") is not None:
+        # the j-th free-text field of the volume directory (descriptor and text record) left blank, everything else filled
+        nfp = case.get("nfp")
+        inst = L.instance(file="volume", nfp=(len(case.get("images", (1,))) + 2) if nfp is None else nfp)
+        cand = []
+        for rec in inst["records"]:
+            if rec["name"] in ("volume_descriptor", "text_record"):
+                for path, off, leaf, arr in L.leaves(rec):
+                    if leaf["k"] == "s" and leaf["r"] == "value" and (("VOL", rec["name"], path) in L.outmap()):
+                        cand.append(("VOL", rec["name"], 0, path))
+        blank = [cand[case["blank_text"] % len(cand)]]
     b = product.build_product(level=case.get("level", "1.5"), images=case.get("images", (("HH", None, 3, 2),)), seed=case["seed"],
                               leader=case.get("leader"), nfp=case.get("nfp"), ctx=case.get("ctx"), plan=plan,
                               overrides=case.get("overrides"), line_overrides=case.get("line_overrides"),
-                              blank=case.get("blank"), kind=case.get("kind"), sample=case.get("sample"),
+                              blank=blank, kind=case.get("kind"), sample=case.get("sample"),
                               informational=case.get("informational"))
     res = {"case": case, "bad": [], "n": 0, "open": "ok"}
     fs = case.get("fs", "local")
     url = imgrun.put_on_fs(b, fs, f"lf_{case['seed']}_{case.get('k')}")
     try:
+        fo = case.get("flaky_open")
+        if fo and fs == "vtrace":
+            # a transient fault on one of the files read at open time (fsspec cat / read failing once): open may raise or must be right
+            from . import tracefs
+
+            nm = {"summary": "summary.txt", "vol": b.names["vol"], "led": b.names["led"]}[fo["file"]]
+            tracefs.arm_fault(url, nm, op="cat", nth=fo.get("nth", 1), exc=TimeoutError)
         try:
             tree = ceos_alos2.open_alos2(url, backend_options=dict(use_cache=False, records_per_chunk=case.get("rpc", 2)))
             proj = project.project_tree(tree)
         except BaseException as e:  # noqa: B902
+            if fo and fs == "vtrace":
+                from . import tracefs
+
+                if tracefs.clear_flaky():
+                    res["open"] = "fault-raised"
+                    return res
             res["open"] = f"error:{type(e).__name__}: {str(e)[:200]}"
             return res
+        if fo and fs == "vtrace":
+            from . import tracefs
+
+            tracefs.clear_flaky()
         ex = oracle.expectations(b, files=tuple(case.get("files", ("VOL", "LED", "IMG"))))
         bad = oracle.check(proj, ex)
         res["n"] = len(ex)
